@@ -4,6 +4,7 @@
   forwarding through map / flat_map / f_or / f_and / f_zip is proved with those components (C13, C14, C15).
 -/
 import MoreExec.Proofs.Retry.Timing
+import MoreExec.Gen.K2
 import MoreExec.Proofs.Throttle.Fifo
 import MoreExec.Props.C14
 import MoreExec.Props.C15
@@ -27,6 +28,14 @@ theorem C06_retry_stops (as : List Act) (j : Job) (bs : List Act) (s' : St)
     have := hinv.i1.stop j.fut hc j hjm rfl
     rw [hstop] at this; cases this
   · cases hstep
+
+/-- (facts of retry.py, regenerated) the sections the model's actions stand for are as the model assumes: `_submit_now` pops, re-checks
+`done()`, submits and appends in that order under the future's lock, with the delegate called outside the executor lock and its callback
+attached after the lock is released; `_cancel` scans (pops a queued job / sets `stop_retry`) under the executor lock before it calls
+`delegate.cancel()` outside it; `_retry` pops, appends and inherits `stop_retry` in one section. -/
+theorem C06_source_protocol :
+    MoreExec.Gen.K2.submitNowProtocol = true ∧ MoreExec.Gen.K2.cancelScanProtocol = true ∧ MoreExec.Gen.K2.retrySectionProtocol = true := by
+  decide
 
 /-- terminal states are for ever -/
 theorem done_mono (s : St) (a : Act) (s' : St) (h : step s a = some s') (f : Nat) (hf : f ∈ s.done) : f ∈ s'.done := by
